@@ -515,6 +515,95 @@ fn entry_points_part(run: &mut Run, n: usize) {
     }
 }
 
+/// The FFI entry points keep no state either: calls with valid and invalid sources (the FFI panics on
+/// those, by design of its `unwrap`s) alternate; every call with a valid source must return what it returned
+/// before any invalid source was seen.
+fn ffi_histories_part(run: &mut Run, n: usize) {
+    use cooklang_bindings::{parse_metadata, parse_recipe};
+    let canonical = parser(EXT_EMPTY, 0);
+    let mut valid: Vec<String> = vec![
+        ">> title: Soup\n>> servings: 2\nBoil @water{1%l} in a #pot for ~{10%minutes}.\n".to_string(),
+        "---\ntitle: Bread\nauthor: me\n---\n= Dough\nMix @flour{1/2%kg} and @water{300%ml}.\n\n= Bake\nBake ~{45%min}.\n".to_string(),
+        "Just text.\n".to_string(),
+    ];
+    for c in batch(run.seed ^ 0xff1, n).into_iter().filter(|c| c.ext == EXT_EMPTY) {
+        let src = c.input();
+        if guard(|| canonical.parse(&src).is_valid()).unwrap_or(false) && valid.len() < 40 {
+            valid.push(src);
+        }
+    }
+    let invalid = ["@flour{1/0%cup}", "@{}", "~{5}", "#pot{1%kg}", "---\na: [\n---\n"];
+    let image = |src: &str, f: f64, meta_only: bool| -> Result<String, String> {
+        guard(|| {
+            if meta_only {
+                let mut m: Vec<(String, String)> = parse_metadata(src.to_string(), f).into_iter().collect();
+                m.sort();
+                format!("{m:?}")
+            } else {
+                let r = parse_recipe(src.to_string(), f);
+                let mut m: Vec<(&String, &String)> = r.metadata.iter().collect();
+                m.sort();
+                format!("{m:?}{:?}{:?}{:?}{:?}", r.sections, r.ingredients, r.cookware, r.timers)
+            }
+        })
+    };
+    let factors = [1.0, 2.0, 0.5];
+    let mut st = Stats::default();
+    let mut fail = None;
+    // baseline before any invalid source is seen
+    let mut base: Vec<Vec<Result<String, String>>> = vec![];
+    for v in &valid {
+        let mut row = vec![];
+        for f in factors {
+            row.push(image(v, f, false));
+            row.push(image(v, f, true));
+        }
+        base.push(row);
+    }
+    let mut x = run.seed ^ 0x9e3779b97f4a7c15;
+    let mut next = || {
+        x ^= x << 13;
+        x ^= x >> 7;
+        x ^= x << 17;
+        x
+    };
+    let steps = valid.len() * 12;
+    let mut history: Vec<String> = vec![];
+    for _ in 0..steps {
+        let r = next();
+        let meta_only = r & 1 == 1;
+        let fi = (r >> 1) as usize % 3;
+        if (r >> 8) % 4 == 0 {
+            let bad = invalid[(r >> 16) as usize % invalid.len()];
+            let _ = image(bad, factors[fi], meta_only);
+            history.push(format!("{}({bad:?})", if meta_only { "parse_metadata" } else { "parse_recipe" }));
+            continue;
+        }
+        let vi = (r >> 16) as usize % valid.len();
+        st.eval();
+        st.nontrivial(&(vi, fi, meta_only));
+        let got = image(&valid[vi], factors[fi], meta_only);
+        let want = &base[vi][fi * 2 + meta_only as usize];
+        if got != *want && want.is_ok() {
+            let tail: Vec<&String> = history.iter().rev().take(6).collect();
+            fail = Some((
+                Violation::new(
+                    "c18.ffi-depends-on-history",
+                    format!("{}({:?}, {}) returned {} before any invalid source was parsed and {} afterwards; the last calls before it (newest first): {tail:?}", if meta_only { "parse_metadata" } else { "parse_recipe" }, valid[vi], factors[fi], truncate(&format!("{want:?}"), 600), truncate(&format!("{got:?}"), 600)),
+                ),
+                json!({"source": valid[vi], "factor": factors[fi], "meta_only": meta_only}),
+            ));
+            break;
+        }
+        history.push(format!("{}(valid #{vi})", if meta_only { "parse_metadata" } else { "parse_recipe" }));
+    }
+    st.sample(|| json!(valid[0]));
+    run.add_part("ffi-histories", &format!("{} canonically valid sources x 3 factors through the FFI parse_recipe / parse_metadata, {steps} calls in a pseudo-random order with calls on 5 invalid sources (which panic inside the FFI and are caught) mixed in: every result must equal the one obtained before any invalid source was parsed; non-trivial = every compared call", valid.len()), st, false);
+    if let Some((v, case)) = fail {
+        run.fail("ffi-histories", v, case);
+    }
+}
+
 fn processes_part(run: &mut Run, n: usize) {
     let mut st = Stats::default();
     let exe = std::env::current_exe().expect("current exe");
@@ -564,7 +653,7 @@ pub fn run(tier: Tier) -> i32 {
         run_prop(
             &mut run,
             "histories",
-            "histories: 1-6 generated inputs parsed 2-16 times in a generated order (repeats and interleavings; a quarter of the calls go through parse_with_options / parse_metadata_with_options with a key-excluding metadata validator) on a long-lived parser that all 16 worker threads share; each result image (output JSON, ordered diagnostics with labels and hints, rendered report, metadata-only parse) must equal the image on a fresh parser and the image of the first occurrence; non-trivial = the history repeats an input; distinct = distinct history",
+            "histories: 1-6 generated inputs (half of the histories add a look-alike of one input whose non-ASCII characters are moved to another Unicode plane, parsed before and after the original) parsed 2-20 times in a generated order (repeats and interleavings; a quarter of the calls go through parse_with_options / parse_metadata_with_options with a key-excluding metadata validator) on a long-lived parser that all 16 worker threads share; each result image (output JSON, ordered diagnostics with labels and hints, rendered report, metadata-only parse) must equal the image on a fresh parser and the image of the first occurrence; non-trivial = the history repeats an input; distinct = distinct history",
             || {
                 (
                     proptest::collection::vec(prop_oneof![2 => recipe_input_strategy(false), 1 => recipe_input_strategy(true), 1 => lines_strategy()], 1..=6),
@@ -572,7 +661,29 @@ pub fn run(tier: Tier) -> i32 {
                     ext_strategy(),
                     0u8..2,
                 )
-                    .prop_map(|(inputs, order, ext, conv)| History { inputs: inputs.into_iter().map(|i| i.pieces).collect(), order, ext, conv })
+                    .prop_map(|(inputs, order, ext, conv)| {
+                        let mut inputs: Vec<Vec<String>> = inputs.into_iter().map(|i| i.pieces).collect();
+                        let mut order = order;
+                        // half of the histories also hold a look-alike of one input: every non-ASCII character of the
+                        // Basic Multilingual Plane moved to plane 15 or 1 (same low 16 bits), parsed before and after
+                        // the original - anything remembered per character under too short a key shows up here
+                        if order[0] % 2 == 0 {
+                            let o = order[1] as usize % inputs.len();
+                            let plane = if order[0] % 4 == 0 { 0xF0000 } else { 0x10000 };
+                            let variant: Vec<String> = inputs[o]
+                                .iter()
+                                .map(|p| p.chars().map(|c| if (c as u32) >= 0x80 && (c as u32) < 0x10000 { char::from_u32(c as u32 + plane).unwrap_or(c) } else { c }).collect())
+                                .collect();
+                            if variant != inputs[o] {
+                                inputs.push(variant);
+                                let v = (inputs.len() - 1) as u8;
+                                let mut pre = vec![v, o as u8, v, o as u8];
+                                pre.append(&mut order);
+                                order = pre;
+                            }
+                        }
+                        History { inputs, order, ext, conv }
+                    })
             },
             tier.pick(4_000, 400_000),
             |h: &History, st| {
@@ -602,6 +713,10 @@ pub fn run(tier: Tier) -> i32 {
     if !run.failed() {
         processes_part(&mut run, tier.pick(300, 6000) as usize);
     }
+    // last: a poisoned lock inside the FFI would break every later call in this process
+    if !run.failed() {
+        ffi_histories_part(&mut run, tier.pick(300, 3000) as usize);
+    }
     run.finish()
 }
 
@@ -609,6 +724,19 @@ pub fn replay(part: &str, j: &serde_json::Value) -> Verdict {
     match part {
         "histories" => check_history(&case_from(j)?, &mut Stats::default()),
         "processes" => Err(Violation::new("c18.process-result-differs", "re-run ./check C18 quick with the recorded VERIF_SEED")),
+        "ffi-histories" => {
+            let src = j.get("source").and_then(|s| s.as_str()).unwrap_or("").to_string();
+            let f = j.get("factor").and_then(|f| f.as_f64()).unwrap_or(1.0);
+            let img = |s: &str| guard(|| format!("{:?}", cooklang_bindings::parse_recipe(s.to_string(), f).ingredients));
+            let before = img(&src);
+            for bad in ["@flour{1/0%cup}", "@{}", "~{5}"] {
+                let _ = guard(|| cooklang_bindings::parse_metadata(bad.to_string(), f));
+                let _ = guard(|| cooklang_bindings::parse_recipe(bad.to_string(), f));
+            }
+            let after = img(&src);
+            vensure!(before == after, "c18.ffi-depends-on-history", "parse_recipe gives {before:?} before and {after:?} after calls with invalid sources");
+            Ok(())
+        }
         "entry-points" => {
             let c: InputCase = case_from(j)?;
             let src = c.input();
